@@ -39,6 +39,13 @@ Proof.
 Qed.
 Print Assumptions C20_no_race.
 
+(* main's start-up section: whatever main.main touches (itself or through calls) after it has started a goroutine is
+   protected against what that goroutine touches; what it touches before is ordered by the go statement
+   (--debug.dump-fsm reads the FSM without the lock: only sound because no reloader exists yet) *)
+Theorem C20_main_startup_ordered : main_ok main_table access_table = true.
+Proof. vm_compute. reflexivity. Qed.
+Print Assumptions C20_main_startup_ordered.
+
 (* non-vacuity: the table contains conflicting pairs that the locks do protect *)
 Example C20_has_conflicts :
   existsb (fun a => existsb (fun b => conflict a b) access_table) access_table = true.
